@@ -139,6 +139,11 @@ def check(F, run, tier):
     run.add(ic.invert_scan_lines(F, S))
     run.add(ic.pitch_law(F, S))
     run.add(ic.pixel_size_check_width(F, S))
+    o_, _n = ic.divisors_nonzero(F, S, ["/Bitmap/", "/Sprite/"])
+    run.add(o_)
+    fx = [f for f in F.fixture_functions.values() if f.qn == "fixture::RowsThatFit"]
+    hit = bool(fx) and any(x.status == "violated" for x in ic.divisors_nonzero(F, S, [], functions=fx)[0])
+    run.fixture("fixtures/raw_read.cpp: totalBytes / rowBytesFromFile with nothing excluding zero is reported by R-TAINT(divisor)", hit)
     obs, n = ic.no_partial_reads(F, S, ["/Bitmap/", "/Sprite/"])
     run.add(obs)
     run.floor("read-sites", n, 30)
